@@ -327,7 +327,7 @@ namespace Pistache::Http::Experimental
         {
             const char* data           = buffer.data() + totalWritten;
             const ssize_t len          = buffer.size() - totalWritten;
-            const ssize_t bytesWritten = ::send(fd, data, len, 0);
+            const ssize_t bytesWritten = ::send(fd, data, len, MSG_NOSIGNAL);
             if (bytesWritten < 0)
             {
                 if (errno == EAGAIN || errno == EWOULDBLOCK)
